@@ -41,6 +41,7 @@ pub fn eval(input: &str) -> String {
         "LEGAL" if need(2) => ops::legal(&brd!(t[1])),
         "MAKE" if need(3) => ops::make(&brd!(t[1]), some!(parse_mv(t[2]))).0,
         "NULL" if need(2) => ops::null(&brd!(t[1])).0,
+        "EDIT" if need(3) => ops::edit(&brd!(t[1]), t[2]),
         "FENP" if need(2) => ops::fenp(&some!(unhex_text(t[1]))),
         "BLD" if need(2) => ops::bld(&some!(BD::parse(t[1]))),
         "BFEN" if need(2) => ops::bfen(&some!(BD::parse(t[1]))),
